@@ -340,10 +340,19 @@ class SpatialTransform(DeviceProperty, Module, metaclass=ABCMeta):
             # Displacement field with domain different from output domain
             # - Use F.grid_sample() to resample displacement field and adjust vectors.
             if grid != self.grid() or align_corners != self.align_corners():
-                flow = FlowFields(data, grid=self.grid().reshape(data.shape[2:]))
-                flow = flow.sample(grid)
-                flow = flow.axes(Axes.from_grid(grid))
-                data = flow.tensor()
+                # Use functional API instead of FlowFields, which would detach data from the autograd graph
+                source_grid = self.grid().reshape(data.shape[2:])
+                source_axes = Axes.from_grid(source_grid)
+                coords = grid.coords(align_corners=source_grid.align_corners(), device=data.device)
+                coords = grid.transform_points(coords, source_axes, to_grid=source_grid)
+                data = U.grid_sample(
+                    data, coords.unsqueeze(0), align_corners=source_grid.align_corners()
+                )
+                data = U.move_dim(data, 1, -1)
+                data = source_grid.transform_vectors(
+                    data, source_axes, Axes.from_grid(grid), to_grid=grid
+                )
+                data = U.move_dim(data, -1, 1)
             # Displacement field with same domain as output grid, but differing size
             # - Use F.interpolate() to resize displacement field.
             elif grid.shape != data.shape[2:]:
